@@ -7,14 +7,14 @@ import (
 )
 
 func IgnoreSelfLoops(g *graph.DGraph) processor.F {
-	del := graph.EdgeSet{}
+	var del []*graph.Edge
 	for _, e := range g.Edges {
 		if e.From == e.To {
 			imonitor.Log(imonitor.KeySelfLoop, "removed: "+e.From.ID)
-			del[e] = true
+			del = append(del, e)
 		}
 	}
-	for e := range del {
+	for _, e := range del {
 		// using the appropriate From-Out and To-In fields for clarity,
 		// but it's always the same node with the same incoming and outgoing edge
 		e.From.Out.Remove(e)
@@ -22,7 +22,7 @@ func IgnoreSelfLoops(g *graph.DGraph) processor.F {
 		g.Edges.Remove(e)
 	}
 	return func(g *graph.DGraph) {
-		for e := range del {
+		for _, e := range del {
 			imonitor.Log(imonitor.KeySelfLoop, "added: "+e.From.ID)
 			e.From.Out.Add(e)
 			e.To.In.Add(e)
